@@ -294,7 +294,8 @@ func (cmd *mainCmd) Run(args []string) error {
 		content, err := os.ReadFile(filename)
 		if err != nil {
 			// Give up, but not without the failures recorded so far.
-			return multierr.Combine(append(errors, err)...)
+			errors = append(append(errors, err), patchRunner.errors...)
+			return multierr.Combine(errors...)
 		}
 		f, err := parser.ParseFile(fset, filename, content /* src */, parser.AllErrors|parser.ParseComments)
 		if err != nil {
@@ -313,7 +314,9 @@ func (cmd *mainCmd) Run(args []string) error {
 		if !ok {
 			if opts.Print {
 				if _, err := cmd.Stdout.Write(content); err != nil {
-					return err
+					// Likewise.
+					errors = append(append(errors, err), patchRunner.errors...)
+					return multierr.Combine(errors...)
 				}
 			}
 			log.Printf("%s: skipped", filename)
